@@ -51,13 +51,14 @@ NoSession == [none |-> TRUE, user |-> FALSE, email |-> FALSE, pu |-> FALSE, at |
 SessionOf(src) ==
     CASE src = "cookie"        -> Sess(TRUE, TRUE, TRUE, TRUE, TRUE, <<"g1", "g2">>)     \* OIDC login, all fields
       [] src = "cookie_nogrp"  -> Sess(TRUE, TRUE, FALSE, TRUE, TRUE, <<>>)              \* user without groups / preferred_username
+      [] src = "cookie_emptygrp" -> Sess(TRUE, TRUE, TRUE, TRUE, TRUE, <<"g1", "g2">>)   \* the IdP lists the groups "", g1, g2: the empty one yields no value
       [] src = "bearer"        -> Sess(TRUE, TRUE, TRUE, TRUE, TRUE, <<"g1", "g2">>)     \* OIDC bearer token: at = it = the token
       [] src = "xbearer"       -> Sess(TRUE, TRUE, TRUE, TRUE, TRUE, <<"g1", "g2">>)     \* extra-issuer bearer token
       [] src = "basic"         -> Sess(TRUE, FALSE, FALSE, FALSE, FALSE, <<"hg1">>)      \* htpasswd via Authorization: Basic
       [] src = "form"          -> Sess(TRUE, FALSE, FALSE, FALSE, FALSE, <<"hg1">>)      \* htpasswd via the sign-in form (cookie session)
       [] src = "cookie_bypass" -> Sess(TRUE, TRUE, TRUE, TRUE, TRUE, <<"g1", "g2">>)     \* valid cookie on a skip-auth route
       [] OTHER                 -> NoSession                                               \* "none_bypass": no credential, skip-auth route
-Sources == {"cookie", "cookie_nogrp", "bearer", "xbearer", "basic", "form", "cookie_bypass", "none_bypass"}
+Sources == {"cookie", "cookie_nogrp", "cookie_emptygrp", "bearer", "xbearer", "basic", "form", "cookie_bypass", "none_bypass"}
 \* the client's own Authorization header is the credential for these sources
 UsesAuthorization(src) == src \in {"bearer", "xbearer", "basic"}
 \* basic auth with prefer-email-to-user copies the user name into the e-mail field
@@ -101,22 +102,23 @@ InScope(c) ==
     \* htpasswd sessions have no tokens: the access-token flag adds nothing for them (and every htpasswd proxy costs an inotify instance)
     /\ (c.source \in {"basic", "form"} => ~c.flags.pat /\ (Tier = "quick" => c.flags.puh))
     /\ (Tier = "quick" => /\ c.spoof \in {"absent", "lower", "repeated", "comma"}
-                          /\ (c.endpoint = "upstream" /\ c.spoof \in {"lower", "comma"} => c.source \in {"cookie", "none_bypass", "basic"}))
+                          /\ (c.endpoint = "upstream" /\ c.spoof \in {"lower", "comma"} => c.source \in {"cookie", "none_bypass", "basic"})
+                          /\ (c.source = "cookie_emptygrp" => c.spoof = "absent"))
 
 \* ---- structured header lists (injectRequestHeaders / injectResponseHeaders) -------------------
 \* One configured header "X-Vp-Ident", written by the operator in some letter case, with preserveRequestValue on / off and one
 \* or two claim values in one of the three claim-source forms.  Same requirement: client values only if preserved, then the
 \* values derived from the session (empty and unknown claims give nothing).
 Spellings == {"canonical", "upper", "lower", "mixed"}
-SKinds    == {"plain", "prefixed", "basic", "two"}            \* two: the claim and the e-mail as two values of the one header
+SKinds    == {"plain", "prefixed", "basic", "two", "dup"}     \* two: the claim and the e-mail as two values of the one header; dup: the claim twice
 SClaims   == {"user", "email", "groups", "pu", "at", "unknown"}
-SSources  == {"cookie", "cookie_nogrp", "bearer", "basic", "none_bypass", "cookie_bypass"}
+SSources  == {"cookie", "cookie_nogrp", "cookie_emptygrp", "bearer", "basic", "none_bypass", "cookie_bypass"}
 NoFlags   == [pba |-> FALSE, pat |-> FALSE, puh |-> FALSE, paz |-> FALSE, sx |-> FALSE, sba |-> FALSE, saz |-> FALSE, pe |-> FALSE, strip |-> TRUE, pw |-> FALSE]
 SVals(s, src, claim) == IF claim = "unknown" THEN <<>> ELSE FieldVals(s, src, NoFlags, claim)
-STagKind(k) == IF k = "two" THEN "plain" ELSE k
+STagKind(k) == IF k \in {"two", "dup"} THEN "plain" ELSE k
 SDerived(d) ==
     LET s == SessionOf(d.source)
-        v == SVals(s, d.source, d.claim) \o (IF d.kind = "two" THEN SVals(s, d.source, "email") ELSE <<>>)
+        v == SVals(s, d.source, d.claim) \o (IF d.kind = "two" THEN SVals(s, d.source, "email") ELSE IF d.kind = "dup" THEN SVals(s, d.source, d.claim) ELSE <<>>)
     IN [i \in 1..Len(v) |-> <<STagKind(d.kind), v[i]>>]
 SExpected(d) ==
     (IF d.endpoint = "upstream" /\ d.preserve THEN ClientTags("X-Vp-Ident", d.source, d.spoof) ELSE <<>>) \o SDerived(d)
@@ -124,9 +126,11 @@ SInScope(d) ==
     /\ (d.endpoint = "authonly" => d.spoof \in {"absent", "canonical"} /\ ~d.preserve /\ d.source # "cookie_bypass")
     /\ (d.source \in {"basic"} => d.claim \in {"user", "email", "groups", "unknown"})
     /\ (Tier = "quick" => /\ d.spoof \in {"absent", "canonical", "lower", "repeated"}
-                          /\ d.source \in {"cookie", "cookie_nogrp", "basic", "none_bypass"}
+                          /\ d.source \in {"cookie", "cookie_nogrp", "cookie_emptygrp", "basic", "none_bypass"}
+                          /\ (d.source = "cookie_emptygrp" => d.claim = "groups" /\ d.spoof = "absent")
+                          /\ (d.kind = "dup" => d.claim = "groups" /\ d.spoof = "absent")
                           /\ d.claim \in {"user", "groups", "pu", "unknown"}
-                          /\ d.kind \in {"plain", "basic", "two"}
+                          /\ d.kind \in {"plain", "basic", "two", "dup"}
                           /\ (d.spoof \in {"canonical", "repeated"} => d.source \in {"cookie", "none_bypass"}))
 SMk(ep, sp, pr, k, cl, src, spoof) == [struct |-> TRUE, endpoint |-> ep, spelling |-> sp, preserve |-> pr, kind |-> k, claim |-> cl, source |-> src, spoof |-> spoof, store |-> "cookie"]
 
